@@ -199,6 +199,14 @@ def finish(prop, tier, seed, level, records, stats, summary, t0, assumptions=Non
             if k.startswith("STRUCT."):
                 struct[k[7:]] = struct.get(k[7:], 0) + v
     cov["seam_structure_mismatches"] = struct
+    pre = {}
+    for r in records:
+        for k, v in (r.get("cnt") or {}).items():
+            if k.startswith("prelude."):
+                pre[k[8:]] = pre.get(k[8:], 0) + v
+    if pre:
+        # runs preceded, in the same process, by an unmonitored sibling optimisation sharing the target / constraint objects
+        cov["process_history_preludes"] = pre
     if struct and not inconclusive:
         notes = next((r.get("struct_notes") for r in records if r.get("struct_notes")), None)
         inconclusive = ("the code is structured differently from what the instrumentation assumes (a seam was not observed where expected); "
